@@ -35,6 +35,7 @@ PROPS = {
     'C08': ['client'],
     'C09': ['client'],
     'C19': ['client'],
+    'C18': ['http'],
     'C20': ['mocker'],
     'C10': ['asyncsched'],
     'C05': ['msg'],
